@@ -10,6 +10,7 @@ import (
 	"sort"
 	"strings"
 	"sync"
+	"sync/atomic"
 	"time"
 
 	"github.com/oneconcern/datamon/pkg/cafs"
@@ -445,6 +446,41 @@ func puRun(cs *puCase, r *gen.Rand) {
 	}
 	close(start)
 	wg.Wait()
+	// once more with every job's write of the lock object held back until all jobs are about to write (or 100 ms have
+	// passed): a lock taken by looking first and writing afterwards lets several of them in
+	if cs.LockWins == 1 {
+		w.Meta.Remove(model.PurgeLock())
+		var arrived int32
+		n := int32(cs.LockTries)
+		f := &memstore.Faults{Hook: func(store, op, key string) {
+			if op == "put" && strings.Contains(key, "purge") {
+				atomic.AddInt32(&arrived, 1)
+				for t := 0; t < 100 && atomic.LoadInt32(&arrived) < n; t++ {
+					time.Sleep(time.Millisecond)
+				}
+			}
+		}}
+		wa := *w
+		wa.WrapMeta = func(st storage.Store) storage.Store { return &memstore.Flaky{Store: st, F: f, Name: "meta"} }
+		wins := 0
+		var wg2 sync.WaitGroup
+		start2 := make(chan struct{})
+		for i := 0; i < cs.LockTries; i++ {
+			wg2.Add(1)
+			go func() {
+				defer wg2.Done()
+				<-start2
+				if core.PurgeLock(wa.Stores(), core.WithPurgeLogger(world.Nop)) == nil {
+					mu.Lock()
+					wins++
+					mu.Unlock()
+				}
+			}()
+		}
+		close(start2)
+		wg2.Wait()
+		cs.LockWins = wins
+	}
 	// the lock is held now: an acquisition that is not forced is refused, whatever other options it carries
 	cs.ResumeLockRefused = core.PurgeLock(w.Stores(), core.WithPurgeLogger(world.Nop), core.WithPurgeResumeIndex(true), core.WithPurgeIndexChunkSize(3)) != nil
 	cs.ForceOk = core.PurgeLock(w.Stores(), core.WithPurgeLogger(world.Nop), core.WithPurgeForce(true)) == nil
@@ -547,6 +583,9 @@ func puGen(prop string, r *gen.Rand, i int) *puCase {
 			cs.Attempts = nil
 			for k := 0; k < n; k++ {
 				cs.Attempts = append(cs.Attempts, puAttempt{Resume: k > 0, CrashAt: r.Range(1, 4)})
+			}
+			if i == 6 { // the first session dies before any chunk is uploaded
+				cs.Attempts[0].CrashAt = 1
 			}
 			cs.Attempts = append(cs.Attempts, puAttempt{Resume: true})
 			cs.FaultFree = false
